@@ -139,7 +139,8 @@ pub fn card(args: &[String]) {
     for round in 0..n {
         crate::util::tick_idx(round as u64, serde_json::Value::Null);
         let m = [16u64, 64, 256, 1024][rng.below(4) as usize];
-        let (b, a, q) = [(1.001f64, 20f64, 65534u64), (1.2, 20., 400), (2.0, 20., 62)][rng.below(3) as usize];
+        // the last two bases need registers beyond 16 bits
+        let (b, a, q) = [(1.001f64, 20f64, 65534u64), (1.2, 20., 400), (2.0, 20., 62), (1.0001, 20., 1048574), (1.00001, 20., 4194304)][rng.below(5) as usize];
         let params = SetSketchParams::new(b, m, a, q);
         let mut s = SetSketcher::<u32, u64, FnvHasher>::new(params, BuildHasherDefault::<FnvHasher>::default());
         let mle = MleJaccard::from(params);
